@@ -82,7 +82,7 @@ Fixpoint handles (cs : list conn) : list Z :=
   match cs with [] => [] | c :: cs' => c_handle c :: handles cs' end.
 
 Definition drained_ok (cs : list conn) : Prop :=
-  Forall (fun c => c_inflight c = 0 -> c_drained c = true) cs.
+  Forall (fun c => c_inflight c = 0 <-> c_drained c = true) cs.
 
 Record inv (s : qstate) : Prop := {
   inv_sum : q_inflight s = sum_conns (q_conns s);
@@ -271,8 +271,17 @@ Proof.
         destruct (Z.leb n (c_inflight c)) eqn:E; [apply Z.leb_le in E|]; lia.
       * now rewrite set_conn_handles.
       * destruct (Z.leb n (c_inflight c)) eqn:E; [apply Z.leb_le in E|]; lia.
-      * apply set_conn_Forall; [assumption|]. cbn. intros E0.
-        apply Z.eqb_eq in E0. now rewrite E0.
+      * apply set_conn_Forall; [assumption|]. cbn.
+        assert (Hc : c_inflight c = 0 <-> c_drained c = true)
+          by (eapply Forall_forall in Hdr; eauto).
+        destruct (Z.leb n (c_inflight c)) eqn:E; [apply Z.leb_le in E|apply Z.leb_gt in E].
+        -- split.
+           ++ intros E0. apply Z.eqb_eq in E0. now rewrite E0.
+           ++ intros Ho. apply orb_true_iff in Ho. destruct Ho as [Ho|Ho].
+              ** now apply Z.eqb_eq in Ho.
+              ** apply Hc in Ho. lia.
+        -- split; [intros _|intros _; lia].
+           replace (c_inflight c - c_inflight c) with 0 by lia. reflexivity.
     + cbn. constructor; assumption.
 Qed.
 
